@@ -202,13 +202,14 @@ CHECKS.update({
 
 CHECKS.update({
     "C20": ("exploration", "bounded-exhaustive enumeration of (SRE, subject) pairs against a Brzozowski-derivative oracle cross-checked by two further independent deciders",
-            "Every SRE of the stated strata (all terms of a shape over the atom alphabet {a, b, any, nonl, bol, eol, bos, eos, character "
-            "classes, ranges, complement/difference/intersection} and the operators seq, or, *, +, ?, **, =, >=, non-greedy variants, "
-            "submatches ($, ->), w/nocase, w/ascii, look-around where supported) x every subject string up to length 4 (5 thorough) over "
-            "{a, b, newline} plus a fixed list with upper case and multi-byte characters is run through regexp-matches and regexp-search "
-            "on the real interpreter (each SRE compiled once, thousands of pairs per process). Asserted: regexp-matches non-#f iff the whole "
-            "subject is in L(sre); regexp-search non-#f iff some substring in its place is in L(sre); reported span 0 and every numbered / "
-            "named submatch span delimit text in the language of the corresponding sub-SRE and nest.",
+            "SRE strata, each enumerated completely: A = the 8 leaves \"a\" \"b\" any (/ \"ab\") (~ \"a\") \"\" bol eol; D1 = every unary operator "
+            "* + ? (= 2 x) (** 1 2 x) ($ x) (-> n x) (w/nocase x) over A and (: x y) (or x y) over AxA; D2 = all terms of depth 2 "
+            "(unary(D1), binary(D1,A), binary(A,D1); binary(D1,D1) and operator chains of depth 3 in the thorough tier); terms mentioning "
+            "e-acute / E-acute; 4 slow (w/nocase (or ..class..)) terms. Subjects: all 121 strings of length <= 4 over {a, b, newline} "
+            "plus 15 fixed strings with upper case and multi-byte characters (lengths 5-6 in the thorough tier). Each pair is run through "
+            "regexp-matches and regexp-search on the real interpreter (each SRE compiled once). Asserted: regexp-matches non-#f iff the "
+            "whole subject is in L(sre); regexp-search non-#f iff some substring read in its place is in L(sre); span 0 and every "
+            "numbered / named submatch span delimit text in the language of the corresponding sub-SRE and nest.",
             "Which match is reported (leftmost/longest, which iteration of a repeated submatch) is not asserted; every expected value is "
             "cross-checked between the derivative oracle, a set-of-positions evaluator and Python re before it is used.", "DESIGN.md §4 C20"),
 })
